@@ -16,7 +16,7 @@ From Verif Require Import Base.Bytestr Front.Ast Back.BashLines Back.Transpile B
 From Coq Require Import ZArith.
 Open Scope N_scope.
 
-From Verif Require Import Facts.C02Facts.
+From Verif Require Import Facts.C02Facts Facts.SimSamples.
 
 Theorem C02_frames_disjoint : forall k1 k2 n1 n2, mangled k1 n1 = mangled k2 n2 -> k1 = k2 /\ n1 = n2.
 Proof. exact mangled_inj. Qed.
@@ -109,6 +109,16 @@ Example C02_call_sample :
   | _ => False
   end.
 Proof. vm_compute. reflexivity. Qed.
+
+(* The hypotheses of C02_calls_preserved are satisfiable and its conclusion is the expected run: for the program above,
+   fun_ok of its function, a complete source derivation with two calls, the caller's context, and the theorem applied. *)
+Example C02_call_hypotheses_hold :
+  fun_ok SimSamples.script_add SimSamples.F_add /\
+  (exists sgF out, J (scall_at [SimSamples.F_add] 1 0 2) SimSamples.XS_main (Prog SimSamples.main_add) SimSamples.sg_empty sgF out SN /\
+                   out = bs "in 42" ++ [10] ++ bs "42 1" ++ [10] ++ bs "in 84" ++ [10]) /\
+  (exists X b', b_code SimSamples.s_end = b_code SimSamples.s_main ++ X /\
+     lruns (call_of SimSamples.script_add 1) [] [] [] X (b', bs "in 42" ++ [10] ++ bs "42 1" ++ [10] ++ bs "in 84" ++ [10])).
+Proof. exact (conj SimSamples.add_fun_ok (conj SimSamples.call_sample_derivation SimSamples.call_sample_applies)). Qed.
 
 Example C02_sample : mangled 1 (bs "x") = bs "f1_x" /\ mangled 12 (bs "_h3") = bs "f12__h3".
 Proof. vm_compute. split; reflexivity. Qed.
